@@ -113,7 +113,8 @@ BEFORE = {'none': 'none', 'complete': 'complete', 'first': 'abandoned',
           'mid': 'abandoned', 'raise': 'raise'}
 
 SHORTCUTS = ('str', 'es5.pretty_print', 'es5.minify_print',
-             'es5.minify_print+obf')
+             'es5.minify_print+obf', 'es5.pretty_print-positional',
+             'es5.minify_print-positional')
 OBF_KW = collections.OrderedDict([
     ('obfuscate', True), ('obfuscate_globals', True), ('drop_semi', True)])
 
@@ -143,7 +144,14 @@ def make_printer(L, name):
     if name == 'min_dropsemi':
         return u.minify_printer(drop_semi=True)
     if name == 'min_obf':
-        return u.minify_printer(obfuscate=True)
+        # minify + obfuscate with a reserved list that contains the names the
+        # generator would pick first, so that the list matters on small trees
+        return u.Unparser(rules=(
+            L.rules.minify(drop_semi=False),
+            L.rules.obfuscate(
+                reserved_keywords=('a', 'b') + tuple(
+                    sorted(L.Lexer.keywords_dict))),
+        ))
     if name == 'min_obf_glob_shadow':
         return u.minify_printer(
             obfuscate=True, obfuscate_globals=True, shadow_funcname=True)
@@ -198,6 +206,14 @@ def explicit(L, kind, j):
         a = u.minify_print(tree)
         b = ''.join(c.text for c in u.minify_printer()(
             L.parser.parse(text, with_comments=wc)))
+    elif kind == 'es5.pretty_print-positional':
+        a = u.pretty_print(tree, '\t')
+        b = ''.join(c.text for c in u.pretty_printer('\t')(
+            L.parser.parse(text, with_comments=wc)))
+    elif kind == 'es5.minify_print-positional':
+        a = u.minify_print(tree, True, True)
+        b = ''.join(c.text for c in u.minify_printer(True, True)(
+            L.parser.parse(text, with_comments=wc)))
     else:
         a = u.minify_print(tree, **OBF_KW)
         b = ''.join(c.text for c in u.minify_printer(**OBF_KW)(
@@ -216,6 +232,10 @@ def shortcut(L, kind, j, tree):
         return L.pkg.es5.pretty_print(text, with_comments=wc)
     if kind == 'es5.minify_print':
         return L.pkg.es5.minify_print(text, with_comments=wc)
+    if kind == 'es5.pretty_print-positional':
+        return L.pkg.es5.pretty_print(text, '\t', with_comments=wc)
+    if kind == 'es5.minify_print-positional':
+        return L.pkg.es5.minify_print(text, True, True, with_comments=wc)
     return L.pkg.es5.minify_print(text, with_comments=wc, **OBF_KW)
 
 
